@@ -172,14 +172,13 @@ def load_bc_block():
 
 
 class _FreeEnv(dict):
-    """globals for the sliced block: an unexpected name is a fresh symbol (so that a dependence on it shows up as a sat obligation rather than a crash)"""
+    """globals for the sliced block: builtins resolve, the dimensional quantities are distinct symbols, any other unknown name is reported as harness-out-of-date"""
     def __missing__(self, key):
         import builtins
         if hasattr(builtins, key):
             return getattr(builtins, key)
-        v = Q.sym('unexpected_' + key)
-        self[key] = v
-        return v
+        # a name the harness does not know: the sliced block has changed shape (e.g. a renamed variable); that is a harness-out-of-date condition, not a property violation
+        raise RuntimeError('bc_pointer block of cf_radial_solver reads an unknown name %r (harness out of date with respect to the current source)' % key)
 
 
 def run_bc(code, solve_for, l, R, rhob):
